@@ -7,7 +7,7 @@
 From Coq Require Import List NArith ZArith Bool Lia Permutation Btauto.
 From ApiFu Require Import Base.Sexp Fut.Plan Fut.Future Fut.ExecAsync Fut.ExecSync Fut.Denote Fut.SubPerm
      Fut.Live Fut.LiveFacts Fut.Acct Fut.AsyncWrap Fut.AsyncField Fut.AsyncList Fut.AsyncSel Fut.AsyncMain
-     Fut.AsyncRun Fut.AsyncSerial Fut.SyncProofs Fut.FutSpec.
+     Fut.AsyncRun Fut.AsyncSerial Fut.SyncProofs Fut.FutSpec Fut.VisibleProofs.
 Import ListNotations.
 
 (** ** 1. [strip] is invisible to the declarative reading and to the reference *)
@@ -702,4 +702,20 @@ Proof.
     (mkerr [PKey key_a; PKey [120%N]] KResolve), (mkerr [PKey key_a; PKey [121%N]] KResolve).
   split; [vm_compute; now left|]. split; [reflexivity|]. split; [reflexivity|].
   split; [now left|]. split; [right; now left|]. discriminate.
+Qed.
+
+(** ** [conforms], with the visible failure-nulls read off the data as the oracle does *)
+Theorem conforms_by_reading root d errs : wf root = true ->
+  (conforms root d errs <->
+   d = sr_data (run_sync root) /\
+   (exists ls, Forall2 lands errs ls /\ sub_perm ls (sites root)) /\
+   forall x, In x (sites root) -> visible_failure_null d x = true -> exists e, In e errs /\ lands e x).
+Proof.
+  intros W. split.
+  - intros [D L N]. split; auto. split; auto. intros x Hx V.
+    rewrite D, sync_data in V. apply (visible_nulls_agree root W x Hx) in V.
+    rewrite Forall_forall in N. now apply N.
+  - intros (D & L & N). constructor; auto. apply Forall_forall. intros x Hx.
+    apply N; [now apply visible_nulls_are_sites|].
+    rewrite D, sync_data. apply (visible_nulls_agree root W x); auto. now apply visible_nulls_are_sites.
 Qed.
